@@ -113,36 +113,10 @@ pub enum SupportProtocols { Sync, LightClient }
 impl SupportProtocols { #[verifier::external_body] pub fn protocol_id(&self) -> (r: ProtocolId) { unimplemented!() } }
 pub struct NetError { pub x: u8 }
 impl NetCtx {
-    // GATE (C16 "it is never lost when the serving peer times out or disconnects"): a peer is disconnected for a timeout only
-    // after the fetch entries it was serving have been re-armed (they can only be re-armed through its pending requests)
-    #[verifier::external_body]
-    pub fn disconnect(&self, peer: PeerIndex, reason: &str) -> (r: Result<(), NetError>)
-        requires headers_rearmed(peer), txs_rearmed(peer) { unimplemented!() }
     #[verifier::external_body]
     pub fn send_message(&self, p: ProtocolId, peer: PeerIndex, m: NetBytes) -> (r: Result<(), NetError>) { unimplemented!() }
 }
 impl LightClientMessage { #[verifier::external_body] pub fn as_bytes(&self) -> (r: NetBytes) { unimplemented!() } }
-// protocols/light_client/constant.rs: REFRESH_PEERS_DURATION = 8 s; local clock readings are far above it
-pub mod constant { pub struct DurationC { pub ms: u128 } impl DurationC { pub fn as_millis(&self) -> (r: u128) ensures r == self.ms { self.ms } } pub const REFRESH_PEERS_DURATION: DurationC = DurationC { ms: 8000 }; }
-#[verifier::external_body]
-pub fn unix_time_as_millis_local() -> (r: u64) ensures r >= 1_000_000 { unimplemented!() }
-impl Peers {
-    #[verifier::external_body]
-    pub fn get_peers_which_have_timeout(&self, now: u64) -> (r: Vec<PeerIndex>) { unimplemented!() }
-    #[verifier::external_body]
-    pub fn get_peers_which_require_new_state(&self, before_ts: u64) -> (r: Vec<PeerIndex>) { unimplemented!() }
-    #[verifier::external_body]
-    pub fn get_peers_which_require_new_proof(&self) -> (r: Vec<PeerIndex>) { unimplemented!() }
-}
-impl LightClientProtocol {
-    // (under contract elsewhere / plumbing)
-    #[verifier::external_body]
-    pub fn get_last_state(&self, nc: &NetCtx, peer: PeerIndex) -> (r: Result<(), Status>) { unimplemented!() }
-    #[verifier::external_body]
-    pub fn get_last_state_proof_for(&mut self, nc: &NetCtx, peer: PeerIndex) -> (r: Result<(), Status>) { unimplemented!() }
-    #[verifier::external_body]
-    pub fn finalize_check_points(&mut self, nc: &NetCtx) { unimplemented!() }
-}
 pub const GET_BLOCKS_PROOF_LIMIT: usize = 1000;            // protocols/mod.rs
 pub const GET_TRANSACTIONS_PROOF_LIMIT: usize = 1000;      // protocols/mod.rs
 // v.iter().find(f): the first element on which f holds
